@@ -7,7 +7,7 @@ R4 writers print what was summed.
 import ast
 
 from sa import callgraph, typestate
-from sa.astutil import (func_params, facts_at, call_name, calls_in, dotted, norm, walk_no_nested, last_attr,
+from sa.astutil import (string_builders, func_params, facts_at, call_name, calls_in, dotted, norm, walk_no_nested, last_attr,
                         try_fold, format_fields, concat_str, enclosing_loops)
 from sa.loader import AnalysisError
 from sa.canon import canon
@@ -231,16 +231,16 @@ def run(ctx):
                      '%s>=len(self.determinants[%s])' % (num, tp) for n in walk_no_nested(dfs))
         if len(dd) == 1:
             dv = norm(dd[0].targets[0])
-            fm = [c for c in calls_in(dfs, nested=False) if last_attr(c) == 'format'
-                  and [norm(a) for a in c.args] == [dv + '.value', dv + '.label']]
+            fm = [n for n, tpl in string_builders(dfs)
+                  if [f[1] for f in tpl if f[0] == 'fld'] == [dv + '.value', dv + '.label']]
             ok = len(fm) == 1 and short_
     ctx.ob('C02.R4', 'determinant-cell', ok,
            'a cell prints value and label of determinant [type][row], or the placeholder when '
            'the list is shorter', gmod, dfs)
-    pk = [c for c in calls_in(ds, nested=False) if last_attr(c) == 'format'
-          and [norm(a) for a in c.args] == ['self.pka_value']]
-    ok = len(pk) == 1 and concat_str(pk[0].func.value) is not None and \
-        format_fields(concat_str(pk[0].func.value))[0][1].endswith('.2f')
+    pk = [(n, tpl) for n, tpl in string_builders(ds)
+          if [f[1] for f in tpl if f[0] == 'fld'] == ['self.pka_value']]
+    ok = len(pk) == 1 and [f[2] for f in pk[0][1] if f[0] == 'fld'][0].endswith('.2f')
+    pk = [n for n, _t in pk]
     ctx.ob('C02.R4', 'determinant-row:pKa-column', ok,
            'the pKa column of the determinant table prints pka_value with two decimals', gmod,
            pk[0] if pk else ds)
